@@ -74,6 +74,34 @@ def flattened_schema_closed_members(job, failure) -> bool:
     return _rerun(job, failure, repair=True)
 
 
+def discriminator_outside_alternative_schemas(job, failure) -> bool:
+    """C06 / C07: the disagreement disappears when every alternative of the discriminated
+    union allows and requires the discriminator property (with its mapped keys) and the
+    subclasses of an inherited discriminator are closed; only for programs with such a union"""
+    from vf.harness.common import program_of
+    from vf.specs import walk
+
+    if failure.get("kind") not in ("deser-accepts-schema-rejects", "deser-rejects-schema-accepts", "output-invalid-against-schema"):
+        return False
+    if not any(s.k == "disc" for s in walk(program_of(job).spec)):
+        return False
+    return _rerun(job, failure, repair_disc=True) or _rerun(job, failure, repair_disc=True, repair=True)
+
+
+def discriminated_subclass_alone(job, failure) -> bool:
+    """C06 / C07: a subclass of a discriminated class used on its own (not through the
+    parent): the disagreement disappears when its schema is the plain closed object, without
+    the reference to the parent that requires the discriminator property"""
+    from vf.harness.common import program_of
+    from vf.specs import walk
+
+    if failure.get("kind") not in ("deser-accepts-schema-rejects", "deser-rejects-schema-accepts", "output-invalid-against-schema"):
+        return False
+    if any(s.k == "disc" for s in walk(program_of(job).spec)):
+        return False
+    return _rerun(job, failure, repair_lone=True)
+
+
 def dependent_required_exclude_defaults(job, failure) -> bool:
     """C07: the output validates once dependentRequired is removed from the schema, and
     the job runs with exclude_defaults"""
